@@ -163,6 +163,7 @@ class Driver(object):
         self.sess = None      # pagination session in progress
         self.just_created = False
         self.just_reopened = False
+        self.just_ruled = None
         self.fresh_n = 0
 
     def family_ok(self, lrus):
@@ -183,6 +184,14 @@ class Driver(object):
             we.setdefault(wid, []).append(lru)
         if self.sess is not None and rng.random() < self.profile.get("continue", 0.6):
             return dict(self.sess)
+        # a page exactly on the anchor of the rule just installed (the rule's own node is on the walk)
+        if self.just_ruled is not None and rng.random() < self.profile.get("anchorpage", 0.25):
+            l, self.just_ruled = self.just_ruled, None
+            if self.family_ok([l]):
+                op = {"op": "AddPage", "l": l, "cr": rng.random() < 0.3}
+                self.note(op)
+                return op
+        self.just_ruled = None
         # persistence pattern: close and reopen right after a request that issued webentity ids,
         # then create again (what a counter kept only in RAM breaks)
         if self.backend == "file" and self.weights.get("Reopen", 0) > 0:
@@ -224,6 +233,8 @@ class Driver(object):
     def feedback(self, op, res):
         """Result of the request just executed (pagination sessions continue with its token)."""
         self.just_created = bool(res.get("created"))
+        if op["op"] == "AddRule" and op.get("wr") and not res.get("exc"):
+            self.just_ruled = op["anchor"]
         if op["op"] in ("Paginate", "PagLinks"):
             ret = res.get("ret")
             if res["exc"] or not isinstance(ret, dict) or ret.get("done") or not ret.get("token"):
